@@ -10,10 +10,11 @@ import (
 
 // C24 — each RPC call completes once with its own result, then is left alone.
 func init() {
-	register("C24", []string{"rpc"}, func(c *engine.Ctx) {
+	register("C24", []string{"rpc", "mtproto", "mt"}, func(c *engine.Ctx) {
 		c.Explain("C24: (R1) Engine.Do registers its result handler in e.rpc under req.MsgID while holding e.mux, a deferred cleanup that covers every exit after the registration deletes the same key under e.mux; NotifyResult/NotifyError look the handler up with their msgID parameter under e.mux and call exactly the value found. (R2) the handler's writes to the caller's memory (Output.Decode, the result error) happen only after it won CompareAndSwap(&called,0,1), and on the winning side it closes the done channel before returning. (R3, output-after-return safety) the handler is invoked outside e.mux, so every exit of Do after the registration must either win that same CAS itself or wait for done (a deferred claim-or-wait that covers the registration, or per-return dominance); a non-blocking poll does not count. (R4) Do returns the handler's result error only on paths dominated by a completed receive from done.")
 		c.NotCover("actual schedules; the value decoded into Output; server-side duplicate results for one id beyond the CAS")
 		c24(c)
+		c24Routing(c)
 	})
 }
 
@@ -271,6 +272,52 @@ func c24(c *engine.Ctx) {
 		c.Check(okr, "C24.R4", "Do/return-result#"+retOrdinal(do, r), r.Pos(), "the handler's result may be returned only after a completed receive from done")
 	}
 	c.Floor("C24.R4", 2, n4)
+}
+
+// c24Routing (R5): "its own result" starts in mtproto.Conn.handleResult: the engine is
+// notified under RequestMessageID of the decoded rpc_result, an rpc_error is recognised by
+// the type id of the buffer actually handed on (re-peeked after gzip unpacking), and the
+// error/result notifications are mutually exclusive.
+func c24Routing(c *engine.Ctx) {
+	hr := c.MustFunc("C24.R5", "mtproto", "Conn.handleResult")
+	if hr == nil {
+		return
+	}
+	n := 0
+	var dec ssa.CallInstruction
+	for _, call := range engine.CallsTo(hr, false, "(*proto.Result).Decode") {
+		dec = call
+	}
+	resD := ""
+	if dec != nil {
+		resD = engine.Describe(engine.Args(dec.Common())[0])
+	}
+	var bufV ssa.Value
+	for _, call := range engine.CallsTo(hr, false, "(*rpc.Engine).NotifyResult", "(*rpc.Engine).NotifyError") {
+		n++
+		id := engine.Describe(engine.Args(call.Common())[1])
+		c.Check(dec != nil && id == resD+".RequestMessageID", "C24.R5", "handleResult/"+call.Common().StaticCallee().Name()+"/routes-by-req-msg-id", call.Pos(), "a result must complete the call whose message id the rpc_result names (routes to %s)", id)
+		if call.Common().StaticCallee().Name() == "NotifyResult" {
+			bufV = engine.Args(call.Common())[2]
+		}
+	}
+	rpcErrID, _ := constInt(c, "mt", "RPCErrorTypeID")
+	var idCmp *ssa.BinOp
+	engine.Instrs(hr, func(i ssa.Instruction) {
+		if b, ok := i.(*ssa.BinOp); ok && b.Op == token.EQL {
+			if k, isK := engine.ConstInt(b.Y); isK && k == rpcErrID {
+				idCmp = b
+			}
+		}
+	})
+	n++
+	if idCmp == nil {
+		c.Fail("C24.R5", "handleResult/dispatch-on-rpc-error", hr.Pos(), "handleResult must test the inner type id against rpc_error")
+	} else {
+		ok, why := idBufferAgree(idCmp.X, bufV)
+		c.Check(ok, "C24.R5", "handleResult/id-matches-buffer", idCmp.Pos(), "the id tested for rpc_error and the buffer handed to the caller's decoder must belong together on every path (a gzipped rpc_error must be recognised as an error, not decoded as the result): %s", why)
+	}
+	c.Floor("C24.R5", 3, n)
 }
 
 // lockRecvOf returns the receiver of the first Lock call in fn described by d.
